@@ -14,26 +14,26 @@ EXTENDS Naturals, Sequences, TLC, Json, IOUtils
 
 Rec == ndJsonDeserialize(IOEnv.TRACE)
 
-VARIABLES mf, mi, mt, cost, elapsed, facts, iters, exhausted, l,
+VARIABLES mf, mi, mt, cost, qcost, elapsed, facts, iters, exhausted, l,
           dev      \* deviations: trace positions whose event is NOT a step of Limits.tla
-tvars == <<mf, mi, mt, cost, elapsed, facts, iters, exhausted, l, dev>>
+tvars == <<mf, mi, mt, cost, qcost, elapsed, facts, iters, exhausted, l, dev>>
 
-TraceInit == mf = 0 /\ mi = 0 /\ mt = 0 /\ cost = 0 /\ elapsed = 0 /\ facts = 0 /\ iters = 0 /\ exhausted = FALSE /\ l = 1 /\ dev = <<>>
+TraceInit == mf = 0 /\ mi = 0 /\ mt = 0 /\ cost = 0 /\ qcost = 0 /\ elapsed = 0 /\ facts = 0 /\ iters = 0 /\ exhausted = FALSE /\ l = 1 /\ dev = <<>>
 
 IsEvent(e) == l <= Len(Rec) /\ Rec[l].ev = e /\ l' = l + 1
 
 TScenario ==
     /\ IsEvent("scenario")
-    /\ mf' = Rec[l].mf /\ mi' = Rec[l].mi /\ mt' = Rec[l].mt /\ cost' = Rec[l].cost /\ elapsed' = 0
+    /\ mf' = Rec[l].mf /\ mi' = Rec[l].mi /\ mt' = Rec[l].mt /\ cost' = Rec[l].cost /\ qcost' = Rec[l].qcost /\ elapsed' = 0
     /\ facts' = Rec[l].levels[1] /\ iters' = 0 /\ exhausted' = FALSE
     /\ UNCHANGED dev
 
-TCall == IsEvent("call") /\ UNCHANGED <<mf, mi, mt, cost, elapsed, facts, iters, exhausted, dev>>
+TCall == IsEvent("call") /\ UNCHANGED <<mf, mi, mt, cost, qcost, elapsed, facts, iters, exhausted, dev>>
 
 \* a pass that found nothing new: allowed any time (it is how the fixpoint is detected)
 TIterIdle ==
     /\ IsEvent("iter") /\ Rec[l].after = Rec[l].before
-    /\ UNCHANGED <<mf, mi, mt, cost, elapsed, facts, iters, exhausted, dev>>
+    /\ UNCHANGED <<mf, mi, mt, cost, qcost, elapsed, facts, iters, exhausted, dev>>
 
 \* a growing pass = the Pass action of Limits.tla: only while not exhausted and within
 \* the cumulative budgets
@@ -43,9 +43,12 @@ TIterGrow ==
     /\ IsEvent("iter") /\ Rec[l].after > Rec[l].before
     /\ facts' = Rec[l].after /\ iters' = iters + 1 /\ elapsed' = elapsed + cost
     /\ dev' = IF PassAllowed THEN dev ELSE Append(dev, l)
-    /\ UNCHANGED <<mf, mi, mt, cost, exhausted>>
+    /\ UNCHANGED <<mf, mi, mt, cost, qcost, exhausted>>
 
+\* a slow call (a slow authorizer: every authorize / query evaluation costs qcost ticks)
+SlowRet == qcost > 0 /\ Rec[l].name \in {"authorize", "query", "query_all"}
 OkAllowed == ~exhausted /\ facts <= mf /\ iters <= mi /\ Rec[l].iterations = iters /\ Rec[l].facts = facts
+             /\ (SlowRet => elapsed < mt)
 
 \* save + restore: nothing is evaluated and the restored authorizer carries the same budget state
 IsSnap == l <= Len(Rec) /\ Rec[l].ev = "return" /\ Rec[l].name = "snapshot"
@@ -54,27 +57,28 @@ SnapAllowed == Rec[l].outcome = "ok" /\ Rec[l].iterations = iters /\ Rec[l].fact
 TReturnSnapshot ==
     /\ IsEvent("return") /\ IsSnap
     /\ dev' = IF SnapAllowed THEN dev ELSE Append(dev, l)
-    /\ UNCHANGED <<mf, mi, mt, cost, elapsed, facts, iters, exhausted>>
+    /\ UNCHANGED <<mf, mi, mt, cost, qcost, elapsed, facts, iters, exhausted>>
 
 TReturnOk ==
     /\ IsEvent("return") /\ Rec[l].outcome = "ok" /\ ~IsSnap
     /\ dev' = IF OkAllowed THEN dev ELSE Append(dev, l)
-    /\ UNCHANGED <<mf, mi, mt, cost, elapsed, facts, iters, exhausted>>
+    /\ elapsed' = elapsed + (IF SlowRet THEN qcost ELSE 0)
+    /\ UNCHANGED <<mf, mi, mt, cost, qcost, facts, iters, exhausted>>
 
 \* a run-limit return must also report the passes actually performed (cumulative accounting)
-LimitAllowed == (exhausted \/ facts >= mf \/ iters >= mi \/ elapsed >= mt) /\ Rec[l].iterations = iters
+LimitAllowed == (exhausted \/ facts >= mf \/ iters >= mi \/ elapsed >= mt \/ SlowRet) /\ Rec[l].iterations = iters
 
 TReturnLimit ==
     /\ IsEvent("return") /\ Rec[l].outcome = "limit" /\ ~IsSnap
     /\ exhausted' = TRUE
     /\ dev' = IF LimitAllowed THEN dev ELSE Append(dev, l)
-    /\ UNCHANGED <<mf, mi, mt, cost, elapsed, facts, iters>>
+    /\ UNCHANGED <<mf, mi, mt, cost, qcost, elapsed, facts, iters>>
 
 \* any other outcome (panic, unexpected error) is a deviation
 TReturnOther ==
     /\ IsEvent("return") /\ Rec[l].outcome \notin {"ok", "limit"} /\ ~IsSnap
     /\ dev' = Append(dev, l)
-    /\ UNCHANGED <<mf, mi, mt, cost, elapsed, facts, iters, exhausted>>
+    /\ UNCHANGED <<mf, mi, mt, cost, qcost, elapsed, facts, iters, exhausted>>
 
 TraceNext == TScenario \/ TCall \/ TIterIdle \/ TIterGrow \/ TReturnOk \/ TReturnLimit \/ TReturnOther \/ TReturnSnapshot
 TraceSpec == TraceInit /\ [][TraceNext]_tvars
